@@ -13,6 +13,10 @@ import numpy as np
 from sim import proc_sim as P
 
 
+class EngineHang(BaseException):
+    """The engine never returns (not an Exception: engine code must not be able to swallow it)."""
+
+
 class ProgramBase:
     """A running simulated program (what subprocess.Popen returns)."""
 
@@ -24,9 +28,19 @@ class ProgramBase:
         self.returncode = None
         self.stdin = self.stdout = self.stderr = None
         self.sigterm = False
+        self.term_left = 0         # ticks the program survives its SIGTERM (it keeps writing meanwhile)
         self.waited = False
         self.exited_naturally = False
         sim.procs.append(self)
+
+    def signal_term(self):
+        """SIGTERM delivered: the program (an MPI job, say) dies a seeded 0..2 ticks later."""
+        if self.sigterm or self.returncode is not None:
+            return
+        self.sigterm = True
+        self.term_left = self.sim.k.choose("term_delay", 3)
+        if self.term_left:
+            self.sim.k.fault("program_survives_sigterm")
 
     # --- process API
     def poll(self):
@@ -37,7 +51,10 @@ class ProgramBase:
         self.waited = True
         if self.returncode is None:
             if self.sigterm:
-                self.returncode = -signal.SIGTERM
+                while self.term_left > 0 and self.returncode is None:
+                    self.tick()                 # what it still writes before it dies
+                if self.returncode is None:
+                    self.returncode = -signal.SIGTERM
             else:
                 # blocking wait for a program that is still running: let it run to its end
                 guard = 0
@@ -53,10 +70,11 @@ class ProgramBase:
         return (b"", b"")
 
     def terminate(self):
-        self.sigterm = True
+        self.signal_term()
 
     def kill(self):
         self.sigterm = True
+        self.term_left = 0
 
     def tick(self):
         pass
@@ -125,8 +143,13 @@ class TrajProgram(ProgramBase):
         self.exited_naturally = True
 
     def tick(self):
-        if self.returncode is not None or self.sigterm:
+        if self.returncode is not None:
             return
+        if self.sigterm:
+            if self.term_left <= 0:
+                self.returncode = -signal.SIGTERM      # died of the signal; poll() sees it without wait()
+                return
+            self.term_left -= 1
         self.ticks += 1
         if self.ticks <= self.appear_after:
             return
@@ -205,6 +228,7 @@ class ProcSim:
         self.procs = []
         self.npolls = 0
         self.nsleeps = 0
+        self.idle_sleeps = 0
         self.killed = []
         self.inputs = []
         self.edr = {}
@@ -213,6 +237,15 @@ class ProcSim:
     def sleep(self, dt=0.0):
         self.nsleeps += 1
         self.k.now += max(dt, 0.0)
+        if self.procs and all(p.returncode is not None for p in self.procs):
+            self.idle_sleeps += 1
+            if self.idle_sleeps > 2000:
+                # bounded liveness: every program ended 2000 polls ago and the engine is still polling
+                raise EngineHang(f"engine still polling {self.idle_sleeps} sleeps after every program ended")
+        else:
+            self.idle_sleeps = 0
+        if self.nsleeps > 3_000_000:
+            raise EngineHang(f"engine polled {self.nsleeps} times")
         for p in self.procs:
             p.tick()
 
@@ -243,7 +276,7 @@ class ProcSim:
                     def killpg(pgid, sig):
                         for p in sim.procs:
                             if p.pid == pgid and p.returncode is None:
-                                p.sigterm = True
+                                p.signal_term()
                                 sim.killed.append(pgid)
                     return killpg
                 if name == "getpid":
